@@ -213,6 +213,17 @@ func (runInfo *runInfoStruct) callExpr() {
 
 	runInfo.rv = nilValue
 
+	if !isRunVMFunction {
+		// a host function may take its time, and nothing polls the context while it
+		// runs: once the run is cancelled no further one is started
+		select {
+		case <-runInfo.ctx.Done():
+			runInfo.err = ErrInterrupt
+			return
+		default:
+		}
+	}
+
 	// useCallSlice lets us know to use CallSlice instead of Call because of the format of the args
 	if callExpr.Go {
 		debug := runInfo.options.Debug
